@@ -19,14 +19,16 @@ def obsOf (st : St) : Act → List Obs
   | .wrote c => match st.pc c with
       | .acquired s => [.req s c]
       | _ => []
-  | .answer s => match st.wire s with
-      | .pending c => [.resp s c]
+  | .answer s k w => match st.wire s with
+      | .pending c => [.resp s c k w]
       | _ => []
   | .deliver s => match st.wire s with
-      | .answered c => match st.owner s with
-          | some d => if st.pc d = .waiting s then [.got d c] else []
+      | .answered _ k w => match st.owner s with
+          | some d => if st.pc d = .waiting s then [.got d k w] else []
           | none => []
       | _ => []
+  | .stray s => [.stray s]
+  | .event => [.event]
   | _ => []
 
 /-- the observation stream of a run (empty from the point where the run gets stuck) -/
@@ -65,58 +67,96 @@ theorem Mon.lookup_set_ne (m : Mon) (s s' t : Nat) (a : Bool) (h : s' ≠ s) : (
 @[simp] theorem Mon.set_bad (m : Mon) (s t : Nat) (a : Bool) : (m.set s t a).bad = m.bad := rfl
 @[simp] theorem Mon.set_cap (m : Mon) (s t : Nat) (a : Bool) : (m.set s t a).cap = m.cap := rfl
 
+theorem Mon.answer_cons_self (m : Mon) (t k w : Nat) :
+    ({ m with sent := (t, k, w) :: m.sent } : Mon).answer t = some (k, w) := by
+  simp [Mon.answer]
+
+theorem Mon.answer_cons_ne (m : Mon) (t t' k w : Nat) (h : t' ≠ t) :
+    ({ m with sent := (t, k, w) :: m.sent } : Mon).answer t' = m.answer t' := by
+  have h' : ¬ t = t' := fun e => h e.symm
+  simp [Mon.answer, h']
+
 /-- simulation relation between a machine state and a monitor state -/
 structure Sim (st : St) (m : Mon) : Prop where
   ok : m.bad = none
   cap : m.cap = st.cap
   pend : ∀ s t, m.lookup s = some (t, false) ↔ st.wire s = .pending t
+  ans : ∀ t p, m.answer t = some p ↔ st.sent t = some p
+  gots : ∀ t, t ∈ m.gots → ∃ o, st.pc t = .done o
 
 theorem sim_init (cap : Nat) : Sim (init cap) (Mon.init cap) :=
-  ⟨rfl, rfl, by intro s t; simp [Mon.lookup, Mon.init, init]⟩
+  ⟨rfl, rfl, by intro s t; simp [Mon.lookup, Mon.init, init], by intro t p; simp [Mon.answer, Mon.init, init],
+   by intro t; simp [Mon.init]⟩
 
-/-- a step that neither changes `wire` nor `cap` and is unobservable keeps the relation -/
-theorem sim_silent {st st' : St} {m : Mon} (h : Sim st m) (hw : st'.wire = st.wire) (hc : st'.cap = st.cap) : Sim st' m :=
-  ⟨h.ok, by rw [hc]; exact h.cap, by intro s t; rw [hw]; exact h.pend s t⟩
+/-- a step that changes neither `wire` nor `cap` nor `sent`, keeps finished calls finished and leaves the
+    monitor where it is keeps the relation -/
+theorem sim_silent {st st' : St} {m : Mon} (h : Sim st m) (hw : st'.wire = st.wire) (hc : st'.cap = st.cap)
+    (hs : st'.sent = st.sent) (hd : ∀ t o, st.pc t = .done o → st'.pc t = .done o) : Sim st' m :=
+  ⟨h.ok, by rw [hc]; exact h.cap, by intro s t; rw [hw]; exact h.pend s t, by intro t p; rw [hs]; exact h.ans t p,
+   by intro t ht; obtain ⟨o, ho⟩ := h.gots t ht; exact ⟨o, hd t o ho⟩⟩
 
 theorem sim_step (st st' : St) (m : Mon) (a : Act) (hi : Inv st) (h : Sim st m) (hs : step st a = some st') :
     Sim st' (Mon.run m (obsOf st a)) := by
+  have hdone : ∀ t o, st.pc t = .done o → st'.pc t = .done o := fun t o hd => done_step st st' a t o hd hs
   cases a with
   | acquire c s =>
     simp only [step] at hs; split at hs
-    · injection hs with hs; subst hs; exact sim_silent h rfl rfl
+    · injection hs with hs; subst hs; exact sim_silent h rfl rfl rfl hdone
     · simp at hs
   | noStreams c =>
     simp only [step] at hs; split at hs
-    · injection hs with hs; subst hs; exact sim_silent h rfl rfl
+    · injection hs with hs; subst hs; exact sim_silent h rfl rfl rfl hdone
     · simp at hs
   | buildFail c =>
     simp only [step] at hs; split at hs
-    · injection hs with hs; subst hs; exact sim_silent h rfl rfl
+    · injection hs with hs; subst hs; exact sim_silent h rfl rfl rfl hdone
     · simp at hs
   | writeCancelled c =>
     simp only [step] at hs; split at hs
-    · injection hs with hs; subst hs; exact sim_silent h rfl rfl
+    · injection hs with hs; subst hs; exact sim_silent h rfl rfl rfl hdone
     · simp at hs
   | writeFailed c =>
     simp only [step] at hs; split at hs
-    · injection hs with hs; subst hs; exact sim_silent h rfl rfl
+    · injection hs with hs; subst hs; exact sim_silent h rfl rfl rfl hdone
     · simp at hs
   | timeout c =>
     simp only [step] at hs; split at hs
-    · injection hs with hs; subst hs; exact sim_silent h rfl rfl
+    · injection hs with hs; subst hs; exact sim_silent h rfl rfl rfl hdone
     · simp at hs
   | cancel c =>
     simp only [step] at hs; split at hs
-    · injection hs with hs; subst hs; exact sim_silent h rfl rfl
+    · injection hs with hs; subst hs; exact sim_silent h rfl rfl rfl hdone
     · simp at hs
   | connDone c =>
     simp only [step] at hs; split at hs
     · split at hs
-      · injection hs with hs; subst hs; exact sim_silent h rfl rfl
+      · injection hs with hs; subst hs; exact sim_silent h rfl rfl rfl hdone
       · simp at hs
     · simp at hs
   | close =>
-    simp only [step] at hs; injection hs with hs; subst hs; exact sim_silent h rfl rfl
+    simp only [step] at hs; injection hs with hs; subst hs; exact sim_silent h rfl rfl rfl hdone
+  | event =>
+    simp only [step] at hs; injection hs with hs; subst hs
+    have hm : Mon.run m (obsOf st .event) = m := by simp [obsOf, Mon.run, Mon.step]
+    rw [hm]; exact h
+  | stray s =>
+    simp only [step] at hs; split at hs
+    · rename_i hg
+      injection hs with hs; subst hs
+      have hnot : ∀ t0, m.lookup s ≠ some (t0, false) := by
+        intro t0 hl
+        have := (h.pend s t0).mp hl
+        rw [hg.1] at this; cases this
+      have hm : Mon.run m (obsOf st (.stray s)) = m := by
+        cases hl : m.lookup s with
+        | none => simp [obsOf, Mon.run, Mon.step, h.ok, hl]
+        | some p =>
+          obtain ⟨t0, b⟩ := p
+          cases b with
+          | true => simp [obsOf, Mon.run, Mon.step, h.ok, hl]
+          | false => exact absurd hl (hnot t0)
+      rw [hm]; exact h
+    · simp at hs
   | wrote c =>
     simp only [step] at hs; split at hs
     · rename_i s hc
@@ -138,46 +178,63 @@ theorem sim_step (st st' : St) (m : Mon) (a : Act) (hi : Inv st) (h : Sim st m) 
           | true => simp [obsOf, hc, Mon.run, Mon.step, h.ok, hrange, hl]
           | false => exact absurd hl (hnot t0)
       rw [hm]
-      refine ⟨h.ok, h.cap, ?_⟩
-      intro s' t
-      by_cases e : s' = s
-      · subst e
-        simp only [Mon.lookup_set_self, upd, if_pos]
-        constructor
-        · intro hh; injection hh with hh; injection hh with hh; rw [hh]
-        · intro hh; injection hh with hh; rw [hh]
-      · rw [Mon.lookup_set_ne _ _ _ _ _ e]
-        simp only [upd, if_neg e]
-        exact h.pend s' t
+      refine ⟨h.ok, h.cap, ?_, h.ans, ?_⟩
+      · intro s' t
+        by_cases e : s' = s
+        · subst e
+          simp only [Mon.lookup_set_self, upd, if_pos]
+          constructor
+          · intro hh; injection hh with hh; injection hh with hh; rw [hh]
+          · intro hh; injection hh with hh; rw [hh]
+        · rw [Mon.lookup_set_ne _ _ _ _ _ e]
+          simp only [upd, if_neg e]
+          exact h.pend s' t
+      · intro t ht
+        obtain ⟨o, ho⟩ := h.gots t ht
+        exact ⟨o, hdone t o ho⟩
     · simp at hs
-  | answer s =>
+  | answer s k w =>
     simp only [step] at hs; split at hs
     · rename_i c hw
       injection hs with hs; subst hs
       have hl := (h.pend s c).mpr hw
-      have hm : Mon.run m (obsOf st (.answer s)) = m.set s c true := by
+      have hm : Mon.run m (obsOf st (.answer s k w)) = { m.set s c true with sent := (c, k, w) :: m.sent } := by
         simp [obsOf, hw, Mon.run, Mon.step, h.ok, hl]
       rw [hm]
-      refine ⟨h.ok, h.cap, ?_⟩
-      intro s' t
-      by_cases e : s' = s
-      · subst e
-        simp [Mon.lookup_set_self, upd]
-      · rw [Mon.lookup_set_ne _ _ _ _ _ e]
-        simp only [upd, if_neg e]
-        exact h.pend s' t
+      refine ⟨h.ok, h.cap, ?_, ?_, ?_⟩
+      · intro s' t
+        show (m.set s c true).lookup s' = some (t, false) ↔ _
+        by_cases e : s' = s
+        · subst e
+          simp [Mon.lookup_set_self, upd]
+        · rw [Mon.lookup_set_ne _ _ _ _ _ e]
+          simp only [upd, if_neg e]
+          exact h.pend s' t
+      · intro t p
+        by_cases e : t = c
+        · subst e
+          have := Mon.answer_cons_self (m.set s t true) t k w
+          simp only [upd, if_pos]
+          rw [show ({ m.set s t true with sent := (t, k, w) :: m.sent } : Mon) =
+                ({ m.set s t true with sent := (t, k, w) :: (m.set s t true).sent } : Mon) from rfl, this]
+        · have := Mon.answer_cons_ne (m.set s c true) c t k w e
+          simp only [upd, if_neg e]
+          rw [show ({ m.set s c true with sent := (c, k, w) :: m.sent } : Mon) =
+                ({ m.set s c true with sent := (c, k, w) :: (m.set s c true).sent } : Mon) from rfl, this]
+          exact h.ans t p
+      · intro t ht
+        obtain ⟨o, ho⟩ := h.gots t ht
+        exact ⟨o, hdone t o ho⟩
     · simp at hs
   | deliver s =>
     simp only [step] at hs; split at hs
-    · rename_i c hw
+    · rename_i c k w hw
       split at hs
       · simp at hs
       · -- the wire of `s` goes from answered to none: no `pending` fact changes
-        have hwire : ∀ (st2 : St) (m2 : Mon), st2.wire = upd st.wire s .none → st2.cap = st.cap → m2 = m → Sim st2 m2 := by
-          intro st2 m2 h2 hc2 hm2
-          subst hm2
-          refine ⟨h.ok, by rw [hc2]; exact h.cap, ?_⟩
-          intro s' t
+        have hpend : ∀ (st2 : St), st2.wire = upd st.wire s .none →
+            ∀ s' t, m.lookup s' = some (t, false) ↔ st2.wire s' = .pending t := by
+          intro st2 h2 s' t
           rw [h2]
           by_cases e : s' = s
           · subst e
@@ -186,6 +243,10 @@ theorem sim_step (st st' : St) (m : Mon) (a : Act) (hi : Inv st) (h : Sim st m) 
             · intro hh; have := (h.pend s' t).mp hh; rw [hw] at this; cases this
             · intro hh; cases hh
           · simp only [upd, if_neg e]; exact h.pend s' t
+        have hgots : ∀ t, t ∈ m.gots → ∃ o, st'.pc t = .done o := by
+          intro t ht
+          obtain ⟨o, ho⟩ := h.gots t ht
+          exact ⟨o, hdone t o ho⟩
         split at hs
         · rename_i d hd
           have hdc : d = c := by
@@ -193,30 +254,50 @@ theorem sim_step (st st' : St) (m : Mon) (a : Act) (hi : Inv st) (h : Sim st m) 
             rcases this with h0 | ⟨c', hc', ho', _⟩
             · rw [hw] at h0; cases h0
             · rw [hw] at hc'
-              rcases hc' with hc' | hc'
+              rcases hc' with hc' | ⟨k', w', hc'⟩
               · cases hc'
-              · injection hc' with hc'; subst hc'
+              · injection hc' with hc' _ _; subst hc'
                 rw [hd] at ho'; injection ho'
           split at hs
           · rename_i hp
-            injection hs with hs; subst hs
-            apply hwire
-            · rfl
-            · rfl
-            · subst hdc
-              simp [obsOf, hw, hd, hp, Mon.run, Mon.step, h.ok]
+            injection hs with hs
+            subst hdc
+            have hsent : m.answer d = some (k, w) := (h.ans d (k, w)).mpr (hi.ans_sent s d k w hw)
+            have hnotin : d ∉ m.gots := by
+              intro hin
+              obtain ⟨o, ho⟩ := h.gots d hin
+              rw [hp] at ho; cases ho
+            have hm : Mon.run m (obsOf st (.deliver s)) = { m with gots := d :: m.gots } := by
+              simp [obsOf, hw, hd, hp, Mon.run, Mon.step, h.ok, hnotin, hsent]
+            rw [hm]
+            refine ⟨h.ok, ?_, ?_, ?_, ?_⟩
+            · subst hs; exact h.cap
+            · apply hpend; subst hs; rfl
+            · intro t p
+              show m.answer t = some p ↔ _
+              subst hs; exact h.ans t p
+            · intro t ht
+              rcases List.mem_cons.mp ht with e | e
+              · subst e; subst hs; exact ⟨.resp t k w, by simp [upd]⟩
+              · exact hgots t e
           · rename_i hp
-            injection hs with hs; subst hs
-            apply hwire
-            · rfl
-            · rfl
-            · simp [obsOf, hw, hd, hp, Mon.run]
+            injection hs with hs
+            have hm : Mon.run m (obsOf st (.deliver s)) = m := by
+              simp [obsOf, hw, hd, hp, Mon.run]
+            rw [hm]
+            refine ⟨h.ok, ?_, ?_, ?_, hgots⟩
+            · subst hs; exact h.cap
+            · apply hpend; subst hs; rfl
+            · intro t p; subst hs; exact h.ans t p
         · rename_i hd
-          injection hs with hs; subst hs
-          apply hwire
-          · rfl
-          · rfl
-          · simp [obsOf, hw, hd, Mon.run]
+          injection hs with hs
+          have hm : Mon.run m (obsOf st (.deliver s)) = m := by
+            simp [obsOf, hw, hd, Mon.run]
+          rw [hm]
+          refine ⟨h.ok, ?_, ?_, ?_, hgots⟩
+          · subst hs; exact h.cap
+          · apply hpend; subst hs; rfl
+          · intro t p; subst hs; exact h.ans t p
     · simp at hs
 
 theorem Mon.run_append (m : Mon) (a b : List Obs) : Mon.run m (a ++ b) = Mon.run (Mon.run m a) b := by
